@@ -52,13 +52,13 @@ type phiCand struct {
 
 type boundsProver struct {
 	transMemo map[*ssa.Function]*transparentInfo
-	resMemo  map[string]int
-	trueMemo map[*ssa.Function][]*cmpSummary
-	p        *Prog
-	eng      *Engine
-	eff      *Effects
-	fns      map[*ssa.Function]*fnBounds
-	cand     map[string]bool // global candidates alive: "inv|T|f>=0", "inv|T|f<=len:g", "post|fn|f", "pre|fn|f|argidx"
+	resMemo   map[string]int
+	trueMemo  map[*ssa.Function][]*cmpSummary
+	p         *Prog
+	eng       *Engine
+	eff       *Effects
+	fns       map[*ssa.Function]*fnBounds
+	cand      map[string]bool // global candidates alive: "inv|T|f>=0", "inv|T|f<=len:g", "post|fn|f", "pre|fn|f|argidx"
 	// nilMods: fields possibly written on paths to a return whose value may be nil
 	nilMods map[*ssa.Function]map[fieldKey]bool
 	log     []string
